@@ -4,11 +4,13 @@ score functions only -/
 namespace TantivyModel.DocSet.Inter
 variable {σ : Type} {C : DS σ} {VC : σ → List Nat → Prop} {WC : σ → Nat → List Nat → Prop}
 
-theorem scoreAll_fst (g : σ → Nat → Nat) (hg : ∀ c, (C.score c).1 = g c (C.doc c)) :
-    ∀ es : List σ, (scoreAll C es).1 = (es.map (fun c => g c (C.doc c))).sum
-  | [] => rfl
-  | e :: es => by
-    simp only [scoreAll, List.map_cons, List.sum_cons, hg e, scoreAll_fst g hg es]
+theorem scoreAll_fst (g : σ → Nat → Nat) :
+    ∀ es : List σ, (∀ c ∈ es, (C.score c).1 = g c (C.doc c)) →
+      (scoreAll C es).1 = (es.map (fun c => g c (C.doc c))).sum
+  | [], _ => rfl
+  | e :: es, h => by
+    simp only [scoreAll, List.map_cons, List.sum_cons, h e (by simp),
+      scoreAll_fst g es (fun c hc => h c (List.mem_cons_of_mem _ hc))]
 
 theorem all2_VB_doc (hC : Lawful C VC WC) {d : Nat} {es : List σ} {les : List (List Nat)}
     (h : All2 (VB VC d) es les) : (∀ lo ∈ les, Spec.doc lo = d) → ∀ e ∈ es, C.doc e = d := by
@@ -35,13 +37,50 @@ theorem children_doc (hC : Lawful C VC WC) {s : State σ} {l : List Nat} (hV : V
   · rw [hC.doc_eq hRB.1]; exact e1
   · exact all2_VB_doc hC hOB e2 c hc
 
+theorem all2_VB_valid {d : Nat} (hd : d < TERMINATED) {es : List σ} {les : List (List Nat)}
+    (h : All2 (VB VC d) es les) : (∀ lo ∈ les, Spec.doc lo = d) → ∀ e ∈ es, ∃ le, VC e le ∧ le ≠ [] := by
+  induction h with
+  | nil => intro _ e he; cases he
+  | @cons a b _ _ x _ ih =>
+    intro hdoc e he
+    rcases List.mem_cons.mp he with rfl | h'
+    · refine ⟨b, x.1, ?_⟩
+      intro h0
+      have := hdoc b (by simp)
+      rw [h0] at this
+      simp only [Spec.doc, List.headD_nil] at this
+      omega
+    · exact ih (fun lo hlo => hdoc lo (List.mem_cons_of_mem _ hlo)) e h'
+
+/-- on a document every child of a valid intersection state is itself valid and on a document -/
+theorem children_valid (hC : Lawful C VC WC) {s : State σ} {l : List Nat} (hV : V VC WC s l) (hne : l ≠ []) :
+    ∀ c ∈ toList s, ∃ lc, VC c lc ∧ lc ≠ [] := by
+  obtain ⟨ll, lr, los, hL, _, _, ha, rfl⟩ := hV
+  have hll : ll ≠ [] := by
+    intro h0; apply hne; rw [h0]; rfl
+  obtain ⟨h1, h2, hRB, hOB, e1, e2⟩ := ha hll
+  have hlt : Spec.doc ll < TERMINATED := by
+    obtain ⟨a, m, rfl⟩ := List.exists_cons_of_ne_nil hll
+    exact (hC.sorted hL).of_cons.1
+  intro c hc
+  simp only [toList, List.mem_cons] at hc
+  rcases hc with rfl | rfl | hc
+  · exact ⟨ll, hL, hll⟩
+  · refine ⟨lr, hRB.1, ?_⟩
+    intro h0
+    rw [h0] at e1
+    simp only [Spec.doc, List.headD_nil] at e1
+    simp only [Spec.doc] at hlt
+    omega
+  · exact all2_VB_valid hlt hOB e2 c hc
+
 /-- the score at the current document is the sum of the children's score functions at it -/
 theorem score_value (hC : Lawful C VC WC) (fx : Fix) (g : σ → Nat → Nat)
-    (hg : ∀ c, (C.score c).1 = g c (C.doc c)) {s : State σ} {l : List Nat} (hV : V VC WC s l)
+    (hg : ∀ {c l}, VC c l → l ≠ [] → (C.score c).1 = g c (C.doc c)) {s : State σ} {l : List Nat} (hV : V VC WC s l)
     (hne : l ≠ []) :
     ((ds C fx).score s).1 = (((toList s).map g).map (fun f => f (Spec.doc l))).sum := by
   show (scoreAll C (toList s)).1 = _
-  rw [scoreAll_fst g hg, List.map_map]
+  rw [scoreAll_fst g _ (fun c hc => by obtain ⟨lc, a1, a2⟩ := children_valid hC hV hne c hc; exact hg a1 a2), List.map_map]
   congr 1
   apply List.map_congr_left
   intro c hc
